@@ -390,6 +390,22 @@ def r4(prog, ev, rep):
         good = oksrc and okinit and okf
         if not okf:
             why = "fold step is `%s`, expected segment.process(acc)" % fb
+    if not good and vt.k == "phi":
+        # the loop form: `let mut acc = state; for seg in self { acc = seg.process(acc) } acc`
+        gp = prog.impl_method(Q, M + "Segment", "process")
+        alts_ = list(vt.a)
+        inits = [x for x in alts_ if x.k == "param" and x.a[0] == 1]
+        steps = [x for x in alts_ if x.k == "call" and x.a[0] == gp and len(x.a) == 3]
+        if len(inits) == 1 and len(steps) == 1 and len(alts_) == 2:
+            it, acc = steps[0].a[1], steps[0].a[2]
+            src = it.a[1] if it.k == "call" and it.a[0] == "<item>" else None
+            while src is not None and src.k == "call" and len(src.a) == 2 and src.a[0].rsplit("::", 1)[-1] in ("iter", "into_iter"):
+                src = src.a[1]
+            okit = src is not None and src.k == "param" and src.a[0] == 0
+            okacc = acc.k == "phi" and any(x == inits[0] for x in acc.a) and all(x == inits[0] or x.k == "loopvar" for x in acc.a)
+            good = okit and okacc
+            if not good:
+                why = "loop step is `%s`, expected acc = segment.process(acc) over the segments in order" % steps[0]
     rep.check(good, "C01-R4", "Vec<Segment>::process", prog.loc_of(vp), "iter().fold(state, |acc, seg| seg.process(acc))", why)
 
 
